@@ -121,3 +121,12 @@ func entryState(cacheName string, key string) (st cache.VerifEntry, ok bool) {
 		return st, false
 	}
 }
+
+var hangCount atomic.Int64
+
+// hangSeen: violations that each cost a watchdog period stop the run after the third one
+func hangSeen(r *hx.Run) {
+	if hangCount.Add(1) >= 3 {
+		r.Abort()
+	}
+}
